@@ -104,9 +104,23 @@ func genLowEntropy(rng *rand.Rand, n int) []byte {
 	return b
 }
 
+// genBarely: incompressible data in which a small stretch (0.5 .. 3 %) of every 64 KiB repeats an earlier stretch:
+// compresses by a fraction of a percent, so that the raw and the LZMA form of a chunk are within a few bytes
+func genBarely(rng *rand.Rand, n int) []byte {
+	d := genRandom(rng, n)
+	for base := 0; base+70000 <= n; base += 64000 + rng.Intn(3000) {
+		k := 300 + rng.Intn(1800)
+		src := base + rng.Intn(20000)
+		dst := base + 30000 + rng.Intn(30000)
+		copy(d[dst:dst+k], d[src:src+k])
+	}
+	return d
+}
+
 var dataGens = []dataGen{
 	{"text", genText}, {"random", genRandom}, {"run", genRun}, {"zeroprefix", genZeroPrefixed},
 	{"periodic", genPeriodic}, {"double", genDouble}, {"mixed", genMixed}, {"lowentropy", genLowEntropy},
+	{"barely", genBarely},
 }
 
 // sizes that matter: empty, tiny, around the 273 look-ahead, the 4096 dictionary, 64 KiB.
